@@ -400,6 +400,12 @@ func decimalValueFromString(numStr string, fracDigRequired uint8) (n Number, err
 		return n, fmt.Errorf("invalid number of fraction digits %d > max of %d, minimum 1", fracDigRequired, MaxFractionDigits)
 	}
 
+	// The zero padding below would turn a literal without any digit
+	// (".", "-.") into a number.
+	if !strings.ContainsAny(numStr, "0123456789") {
+		return n, fmt.Errorf("%s is not a valid decimal number: invalid syntax", numStr)
+	}
+
 	s := numStr
 	dx := strings.Index(s, ".")
 	var fracDig int
